@@ -8,8 +8,9 @@ The floating-point callees are modelled operation by operation over bit patterns
 its range is undefined behaviour, i.e. *not a constant expression*: the model returns
 `.error (.pre "float-cast-overflow")`, printed as `cfail`.
 
-Sources (fix-c13 tree): include/etl/_3rd_party/gcem/gcem_incl/{floor,ceil,trunc,round,find_whole,abs,sgn}.hpp,
-include/etl/_cmath/{rint,lrint,copysign,fma}.hpp.
+Sources: include/etl/_3rd_party/gcem/gcem_incl/{floor,ceil,trunc,round,find_whole,abs,sgn}.hpp,
+include/etl/_cmath/{rint,lrint,copysign,signbit,fma}.hpp.  Property C16 imports these models for the
+constant-evaluated paths (Tetl/C16/Model.lean): there is one model of this code in the framework.
 -/
 import Tetl.Common
 import Tetl.C13.Float
@@ -107,6 +108,10 @@ def lrintFallback (f : Fmt) (w : Nat) (b : Nat) : Except Err Int := do
 /-- `detail::copysign_fallback`: `signbit(x) != signbit(y) ? -x : x` -/
 def copysignFallback (f : Fmt) (x y : Nat) : Nat :=
   if f.sign x != f.sign y then f.neg x else x
+
+/-- `detail::signbit_fallback` for the 4- and 8-byte formats: `(bit_cast<uintN_t>(arg) >> (N - 1)) != 0`
+    (the alternative of `etl::signbit` where `__builtin_signbit` is missing) -/
+def signbitFallback (f : Fmt) (b : Nat) : Bool := b / f.signW != 0
 
 /-- the constant-evaluated path of `fma`: `x * y + z` in two roundings -/
 def fmaTwoStep (f : Fmt) (x y z : Nat) : Nat := f.add (f.mul x y) z
